@@ -187,6 +187,38 @@ def rt_c01_c02(rnd, tier):
                         st.name, len(got), len(want), "stored" if w in db else "absent", len(prof), prof[0]), scheme=st.name,
                         profile=[len(prof), prof[0]], config={k: v for k, v in st.cfg.items() if k.startswith("param")})
                     break
+    # one scheme object, one key, two databases: what a keyword has in the first index must not show up when the second index
+    # (where it is absent or has another list) is searched, in either order of the searches
+    for st in setups(tier):
+        for profs in ([[3, 2], [2, 4]], [[5], [1, 1, 1]]):
+            if not all(st.fits(p) for p in profs):
+                continue
+            db1, db2 = st.make_db(rnd, profs[0]), st.make_db(rnd, profs[1])
+            shared = list(db1)[0]
+            db2[shared] = list(reversed(db2[list(db2)[0]]))[:1] + [db1[shared][0]]      # same keyword, another list
+            try:
+                sch, cfg = st.scheme({**db1, **db2})
+                if st.name == "CGKO06.SSE2":
+                    merged = {w: (db1.get(w, []) + db2.get(w, [])) for w in {**db1, **db2}}
+                    sch, cfg = st.scheme(merged)
+                key = sch.KeyGen()
+                edb1 = sch.EDBSetup(key, copy.deepcopy(db1))
+                edb2 = sch.EDBSetup(key, copy.deepcopy(db2))
+                for first, second in ((edb1, edb2), (edb2, edb1)):
+                    for w in list(db1) + list(db2):
+                        tok = sch.TokenGen(key, w)
+                        for edb, db in ((first, db1 if first is edb1 else db2), (second, db1 if second is edb1 else db2)):
+                            cases += 1
+                            got = as_result(sch.Search(edb, tok))
+                            if got != expected(st.name, db.get(w, [])):
+                                _viol(viol, "%s: with two indexes built by one scheme object under one key, a search returned %d identifiers "
+                                            "instead of the %d the searched index holds for that keyword" % (st.name, len(got), len(db.get(w, []))),
+                                      scheme=st.name, profiles=profs)
+                                raise StopIteration
+            except StopIteration:
+                pass
+            except Exception as ex:
+                _viol(viol, "%s: two indexes on one scheme object raised %s" % (st.name, type(ex).__name__), scheme=st.name, profiles=profs)
     # long histories on one scheme object: tokens requested for many other keywords must not change later answers
     for st in setups(tier):
         prof = [2, 3]
